@@ -250,6 +250,9 @@ func (e *Env) RunBuild(o BuildOpts) *Obs {
 	if o.DisableCache {
 		args = append(args, "--enable-cache=false")
 	}
+	if e.Spec.Platform != "" {
+		args = append(args, "--platform="+e.Spec.Platform)
+	}
 	args = append(args, o.Flags...)
 	args = append(args, o.Patterns...)
 	res := e.M.Run(args, grog.RunOpts{Cwd: o.Cwd, Build: build, Env: o.Env, Timeout: o.Timeout, Pty: e.Pty && len(o.Wrapper) == 0, Wrapper: o.Wrapper})
